@@ -10,6 +10,7 @@ package main
 
 import (
 	"bufio"
+	"crypto/sha1"
 	"encoding/json"
 	"flag"
 	"fmt"
@@ -41,14 +42,19 @@ func fatal(f string, a ...any) {
 	os.Exit(2)
 }
 
-func step(h *lh.H, rec *recorder, c M, first bool) {
+// step executes one command; the event is recorded unless emit is false (a prefix already recorded for
+// another behaviour). b,i identify the behaviour and the position, for replay files.
+func step(h *lh.H, rec *recorder, c M, withPre, emit bool, b, i int) {
 	var pre M
-	if first {
+	if withPre && emit {
 		pre = h.Project()
 	}
 	res, rpcs := h.Exec(c)
-	ev := M{"cmd": c, "cfg": M{"cui": h.CUI}, "res": res, "post": h.Project(), "rpcs": rpcs}
-	if first {
+	if !emit {
+		return
+	}
+	ev := M{"cmd": c, "cfg": M{"cui": h.CUI}, "res": res, "post": h.Project(), "rpcs": rpcs, "b": b, "i": i}
+	if withPre {
 		ev["pre"] = pre
 	}
 	rec.emit(ev)
@@ -76,11 +82,24 @@ func replay(in, out string, cui bool, perturb string) {
 	}
 	defer f.Close()
 	rec := &recorder{w: bufio.NewWriterSize(f, 1<<20)}
-	for _, beh := range behs {
+	// every step is judged from its own pre-state, so a command prefix shared by several behaviours is
+	// recorded once (it is still executed every time)
+	seen := map[[20]byte]bool{}
+	for b, beh := range behs {
 		h := lh.New(cui)
 		h.Perturb = perturb
+		hash := sha1.New()
+		prevEmitted := false
 		for i, c := range beh {
-			step(h, rec, c, i == 0)
+			cb, _ := json.Marshal(c)
+			hash.Write(cb)
+			hash.Write([]byte{0})
+			var key [20]byte
+			copy(key[:], hash.Sum(nil))
+			emit := !seen[key]
+			seen[key] = true
+			step(h, rec, c, !prevEmitted, emit, b, i)
+			prevEmitted = emit
 		}
 	}
 	rec.w.Flush()
@@ -159,12 +178,13 @@ func (g *gen) next() M {
 		}
 		return M{"t": "add-svc", "id": id, "def": g.svcDef(), "tok": g.pick(tokVals), "chks": chks}
 	case x < 24:
-		return M{"t": "add-chk", "id": g.pick(chkIDs), "svc": g.chkSvc(), "status": g.pick(statuses), "output": g.pick(outputs), "tok": g.pick(tokVals)}
+		return M{"t": "add-chk", "id": g.pick(chkIDs), "svc": g.chkSvc(), "status": g.pick([]string{"passing", "passing", "warning", "critical"}), "output": g.pick(outputs), "tok": g.pick(tokVals)}
 	case x < 36:
-		return M{"t": "upd-chk", "id": g.pick(chkIDs), "status": g.pick(statuses), "output": g.pick(outputs)}
+		// mostly output-only changes of a passing check: with CheckUpdateInterval they are deferred
+		return M{"t": "upd-chk", "id": g.pick(chkIDs), "status": g.pick([]string{"passing", "passing", "passing", "warning", "critical"}), "output": g.pick(outputs)}
 	case x < 43:
 		return M{"t": "rm-svc", "id": g.pick(svcIDs)}
-	case x < 48:
+	case x < 47:
 		return M{"t": "rm-chk", "id": g.pick(chkIDs)}
 	case x < 52:
 		return M{"t": "fire", "id": g.pick(chkIDs)}
@@ -208,7 +228,7 @@ func random(seed int64, n, length int, out string) {
 		g := &gen{r: rand.New(rand.NewSource(seed*100003 + int64(t)))}
 		h := lh.New(g.r.Intn(3) != 0)
 		for i := 0; i < length; i++ {
-			step(h, rec, roundTrip(g.next()), i == 0)
+			step(h, rec, roundTrip(g.next()), i == 0, true, t, i)
 		}
 	}
 	rec.w.Flush()
